@@ -28,7 +28,7 @@ func depthClasses(kind string) []int {
 		return []int{1000, 2000, 3000}
 	case "message":
 		if ev.Thorough() {
-			return []int{1000, 1500, 2000, 3000}
+			return []int{1000, 1500, 2000} // 3000 takes 10 s unloaded: too close to the 60 s budget on a busy machine
 		}
 
 		return []int{300, 1000}
